@@ -30,7 +30,7 @@ import sys
 
 from .. import ops, walker, keys
 from ..core import Violation, Precondition
-from ..domains import Domain, is_mapping, is_tree, FAMILIES
+from ..domains import Domain, is_mapping, is_tree, FAMILIES, _detach
 from . import common, cmpfault
 
 PROP = "C17"
@@ -115,6 +115,26 @@ def plan(rng, tier):
         op = ["resolve", st(), st(), st()]
     else:
         op = ["setstate", rng.choice(["fresh", "live", "live"])]
+    mode = "hook"
+    if rng.random() < 0.4:
+        # the interpreter's allocator fails instead (object, tuple, list,
+        # iterator ... allocations inside the operation): more operation
+        # kinds allocate
+        mode = "pyalloc"
+        r2 = rng.random()
+        if r2 < 0.10:
+            op = ["getstate"]
+        elif r2 < 0.25:
+            from . import ranges
+            meths = ranges.MAP_METHS if mapping else ranges.SET_METHS
+            op = ranges._range_op(rng, g, meths)
+        elif r2 < 0.40 and g.model.d:
+            k = rng.choice(g.model.skeys())
+            op = rng.choice([["pop", k], ["popitem"], ["del", k],
+                             ["items"], ["values"], ["getitem", k]]
+                            if mapping else
+                            [["remove", k], ["spop"], ["discard", k],
+                             ["keys"], ["iter"]])
     follow = []
     # the follow-up grows the very region that failed
     if op[0] in ("set", "setdefault", "insert", "add", "sinsert"):
@@ -127,7 +147,7 @@ def plan(rng, tier):
     follow += [g.op() for _ in range(rng.randint(4, 10))]
     return {"cfg": cfg, "build": build, "op": op, "follow": follow,
             "idx": [rng.randrange(1 << 16) for _ in range(3)],
-            "_all": True}
+            "_all": True, "mode": mode}
 
 
 def simplify(plan):
@@ -147,20 +167,35 @@ def _cmod(dom):
 class _Arm(object):
     stats = (0, 0)
     target = None
+    target0 = None
 
 
-def _do(plan, dom, c, live, arm):
-    """run the operation under test with the hook armed by arm() right
-    before the call; the hook is read (_Arm.stats) and disarmed right after
-    it; -> outcome"""
+def _do(plan, dom, c, live, arm, post=None):
+    """run the operation under test with the fault armed by arm() right
+    before the call (after its operands were built); post() reads the hook
+    (_Arm.stats) and disarms right after it; -> outcome"""
     from . import twin
     cfg = plan["cfg"]
     op = plan["op"]
     cm = _cmod(dom)
 
-    def post():
-        _Arm.stats = cm._verif_alloc_stats()
-        cm._verif_alloc_arm(0)
+    if post is None:
+        def post():
+            _Arm.stats = cm._verif_alloc_stats()
+            cm._verif_alloc_arm(0)
+    if op[0] in ("getstate", "pickle"):
+        import pickle
+        arm()
+        try:
+            if op[0] == "getstate":
+                c.__getstate__()
+            else:
+                pickle.dumps(c, op[1])
+            return ("ok", None)
+        except Exception as e:
+            return ops.norm_exc(e)
+        finally:
+            post()
     if op[0] == "setstate":
         kind = cfg["kind"]
         mapping = is_mapping(kind)
@@ -196,11 +231,43 @@ def _do(plan, dom, c, live, arm):
             return cmpfault._do(plan, dom, c, live)
         finally:
             twin.PRECALL = twin.POSTCALL = None
-    arm()
+    ops.PRECALL, ops.POSTCALL = arm, post
     try:
         return ops.apply(c, op, dom, "c", cfg["kind"])
     finally:
-        post()
+        ops.PRECALL = ops.POSTCALL = None
+
+
+def _nomem():
+    """(set_nomemory, remove_mem_hooks) of CPython's _testcapi, or None"""
+    try:
+        import _testcapi
+        return _testcapi.set_nomemory, _testcapi.remove_mem_hooks
+    except Exception:
+        return None
+
+
+def _plainout(out, dom):
+    """an outcome without references to key/value objects"""
+    def conv(x):
+        if type(x) is keys.HK:
+            return ("hk", x.n)
+        if type(x) is keys.TV:
+            return ("tv", x.n)
+        if isinstance(x, (list, tuple)):
+            return [conv(y) for y in x]
+        if isinstance(x, float) and x != x:
+            return "nan"
+        if isinstance(x, (str, bytes)):
+            return _detach(x)       # (a copy: the ledger counts references)
+        if isinstance(x, (int, float, bool)) or x is None:
+            return x
+        return type(x).__name__
+    return (out[0], conv(out[1]))
+
+
+PYCAP = 160         # allocation indices tried per operation (pyalloc mode)
+PYSTOP = 6          # ... stop after this many consecutive clean completions
 
 
 def _tracked(dom):
@@ -212,7 +279,8 @@ def _tracked(dom):
     return out
 
 
-def _one(plan, dom, cfg, ctx, n, nalloc, L0, L1, baseline, tracked, h, base):
+def _one(plan, dom, cfg, ctx, n, nalloc, L0, L1, baseline, tracked, h, base,
+         pout0=None):
     kind = cfg["kind"]
     mapping = is_mapping(kind)
     op = plan["op"]
@@ -221,15 +289,43 @@ def _one(plan, dom, cfg, ctx, n, nalloc, L0, L1, baseline, tracked, h, base):
     c = cmpfault._build(plan, dom)
     live = [(c, mapping)]
     cm._verif_alloc_arm(0)
-    out = _do(plan, dom, c, live, lambda: cm._verif_alloc_arm(n))
-    seen, fired = _Arm.stats
+    pyalloc = plan.get("mode") == "pyalloc"
+    if pyalloc:
+        setnm, rmhooks = _nomem()
+        out = _do(plan, dom, c, live, lambda: setnm(n - 1, n), rmhooks)
+        rmhooks()
+        fired = out == ("exc", "MemoryError")
+    else:
+        out = _do(plan, dom, c, live, lambda: cm._verif_alloc_arm(n))
+        seen, fired = _Arm.stats
     target = _Arm.target if op[0] == "setstate" else c
     _Arm.target = None      # (no reference of ours may outlive this call)
+    if pyalloc and not fired:
+        # the call ended without MemoryError: the failure was not reached
+        # (n is beyond the operation's allocations), or it hit an allocation
+        # whose failure the code legitimately absorbs.  Either way the call
+        # must then have done its whole job.
+        sig = dict(base, mode="pyalloc")
+        pout = _plainout(out, dom)
+        out = None
+        got = cmpfault._plain(ops.listing(target, mapping), dom, mapping)
+        if pout != pout0 or not ops.same_value(got, L1):
+            raise Violation(
+                dict(sig, oracle="not-reported",
+                     got=pout[1] if pout[0] == "exc" else "returned"),
+                "%r with interpreter allocation %d failing: the call -> %r "
+                "(unfaulted: %r) and left %r (completed: %r): neither "
+                "MemoryError nor the completed operation" % (
+                    op, n, pout, pout0, got[:30], L1[:30]))
+        return "clean"
     if not fired:
         return
-    ctx.fault("alloc-fail")
-    sig = dict(base, n=min(n, 6), of=min(nalloc, 6))
-    ctx.ev(opn, n, nalloc, out[0], out[1] if out[0] == "exc" else None)
+    ctx.fault("pyalloc-fail" if pyalloc else "alloc-fail")
+    if pyalloc:
+        sig = dict(base, mode="pyalloc")
+    else:
+        sig = dict(base, n=min(n, 6), of=min(nalloc, 6))
+        ctx.ev(opn, n, nalloc, out[0], out[1] if out[0] == "exc" else None)
     if out != ("exc", "MemoryError"):
         raise Violation(
             dict(sig, oracle="not-reported",
@@ -263,7 +359,8 @@ def _one(plan, dom, cfg, ctx, n, nalloc, L0, L1, baseline, tracked, h, base):
             extra = set((dom.pkid(ops.K(dom, kk)), dom.pvid(ops.V(dom, vv)))
                         for kk, vv in op[1])
         verdict = cmpfault._contents_verdict(op, L0, L1, got, mapping, extra)
-        if opn in cmpfault.READONLY and opn != "ctork" and verdict != "old":
+        if (opn in cmpfault.READONLY or opn in ("getstate", "pickle")) \
+                and opn != "ctork" and verdict != "old":
             verdict = None
     if verdict is None:
         raise Violation(
@@ -312,6 +409,11 @@ def _one(plan, dom, cfg, ctx, n, nalloc, L0, L1, baseline, tracked, h, base):
             except Violation as v2:
                 raise Violation(dict(sig, oracle="unsound-later",
                                      by=v2.sig.get("oracle")), v2.detail)
+    if pyalloc:
+        ctx.nontriv((kind, common.fam_class(dom.fam), opn, "py", min(n, 24),
+                     min(h, 4), verdict))
+        ctx.interleaving((opn, "py", verdict))
+        return verdict
     ctx.nontriv((kind, common.fam_class(dom.fam), opn, min(n, 8),
                  min(nalloc, 8), min(h, 4), verdict))
     ctx.interleaving((opn, min(n, 8), min(nalloc, 8), verdict))
@@ -340,8 +442,13 @@ def execute(plan, ctx):
         cm._verif_alloc_arm(0)
         out0 = _do(plan, dom, c0, live0, lambda: cm._verif_alloc_arm(0))
         nalloc = _Arm.stats[0]
+        _Arm.target0 = _Arm.target
         _Arm.target = None
-        L1 = cmpfault._plain(ops.listing(c0, mapping), dom, mapping)
+        L1 = cmpfault._plain(ops.listing(
+            _Arm.target0 if op[0] == "setstate" and _Arm.target0 is not None
+            else c0, mapping), dom, mapping)
+        _Arm.target0 = None
+        pout0 = _plainout(out0, dom)
         h = 0
         if is_tree(kind):
             try:
@@ -350,12 +457,35 @@ def execute(plan, ctx):
                 h = -1
         del c0, live0
         out0 = None
-        if nalloc == 0:
+        if plan.get("mode") == "pyalloc":
+            if _nomem() is None:
+                ctx.probe("pyalloc-unavailable")
+                return
+            clean = 0
+            outcomes = {}
+            for n in range(1, PYCAP + 1):
+                r = _one(plan, dom, cfg, ctx, n, 0, L0, L1, baseline,
+                         tracked, h, base, pout0)
+                if r == "clean":
+                    clean += 1
+                    if clean >= PYSTOP:
+                        break
+                else:
+                    clean = 0
+                    outcomes[r] = outcomes.get(r, 0) + 1
+            ctx.ev(opn, "pyalloc", sorted(outcomes))
+            ctx.probe("pyalloc-ops")
+            if not outcomes:
+                ctx.probe("pyalloc-never-fired")
+            nalloc = 0
+        elif nalloc == 0:
             ctx.probe("no-allocations")
             return
         ctx.probe("allocations-%d" % min(nalloc, 8))
         idxs = range(1, nalloc + 1) if plan.get("_all") and nalloc <= 64 \
             else sorted(set(1 + x % nalloc for x in plan["idx"]))
+        if plan.get("mode") == "pyalloc":
+            idxs = []
         for n in idxs:
             _one(plan, dom, cfg, ctx, n, nalloc, L0, L1, baseline, tracked,
                  h, base)
